@@ -159,9 +159,13 @@ def grammar_models(s, L, N, K):
 
 
 def C04(s, known):
-    s.build()
+    s.build(need_inproc=True)
     quick = s.tier == "quick"
     sents = grammar_models(s, 9 if quick else 12, 4 if quick else 5, 3 if quick else 4)
+    if s.inproc_ok:
+        # the shipped LALR tables against the language, without the lexer in between
+        mt = s.drive("tokens", binary=s.vinproc, args=["-aux", sents])
+        s.validate(mt, "TokenTrace", known=known, shard=max(1000, len_records(mt) // 12 + 1))
     m = s.drive("c04", args=["-aux", sents])
     s.validate(m, "C04Trace", known=known, shard=max(50, len_records(m) // 12 + 1))
     return dict(level="model_checking",
